@@ -13,7 +13,8 @@ SPECIAL_CHARS = list('\'"`´$#;()[],.:?%@\\/*-+=<>!|&^~_ \t\n\r') + [
     '\x00', '\x0b', '\x0c', '\x1c', '\x1d', '\x1e', '\x1f', '\x85', '\xa0',
     ' ', ' ', '　', 'é', 'À', 'Ü', 'ß',
     'İ', 'ı', 'ſ', 'K', 'ﬁ', '́', '​',
-    '\ud800', '\udfff', '\U0001f600', '\U00010000', '（', '＇',
+    '\ud800', '\udfff', '\U0001f600', '\U00010000', '（', '＇', '\ufeff',
+    'é', 'Å', 'Ω',
     '´', '’',
 ]
 MULTI_ATOMS = [
@@ -271,8 +272,23 @@ def corpus_mutation(rng):
     return mutate_text(rng, text)
 
 
+EDGE_CHARS = ['\ufeff', '\ufeff', '\x00', '\xa0', '\u200b', '\r', '\x1c',
+              '\ufffe', '\u2028', '\x85', '\x0c', '\ufeff\ufeff', ';', '#']
+
+
 def hostile_text(rng):
-    """The default mix used by the text-level properties."""
+    """The default mix used by the text-level properties; now and then the
+    text gets an unusual first / last character (BOM, NUL, exotic blanks)."""
+    kind, text = _hostile_text(rng)
+    x = rng.random()
+    if x < 0.04:
+        text = rng.choice(EDGE_CHARS) + text
+    elif x < 0.06:
+        text = text + rng.choice(EDGE_CHARS)
+    return kind, text
+
+
+def _hostile_text(rng):
     x = rng.random()
     if x < 0.40:
         return 'charsoup', char_soup(rng)
